@@ -161,14 +161,18 @@ def run(case, mode, cid, tier):
     else:
         prog = case["prog"] if "prog" in case else progcase.gen_prog((cid,) + tuple(case["gen"]), profile=case.get("profile", "default"))
         b = progcase.Built(prog).build_sources()
+        tag = shash(prog)
+        method = case.get("shuffle") or derive_rng(cid, tag).choice(["tasks", "disk"])
         try:
-            b.eval_dx()
+            b.eval_dx(method)
         except Exception:
             return {"status": "refused", "counters": {"build_refused": 1}}
+        try:
+            refs = [v.pd for v in b.eval_pd()]
+        except Exception:
+            refs = None
         ns = len(prog["sources"])
         values = [(f"v{i}", v) for i, v in enumerate(b.dx_vals)]
-        tag = shash(prog)
-        method = derive_rng(cid, tag).choice(["tasks", "disk"])
     viol = None
     with dask.config.set({"dataframe.shuffle.method": method}):
         for vname, coll in values:
@@ -184,7 +188,8 @@ def run(case, mode, cid, tier):
                     bump("plan_or_run_raises")
                     continue
                 try:
-                    probs, st = M.audit_plan(e, parts=parts, schema=(mode == "schema"), structure=(mode == "structure"))
+                    ref = refs[int(vname[1:])] if (prog is not None and refs is not None) else None
+                    probs, st = M.audit_plan(e, parts=parts, schema=(mode == "schema"), structure=(mode == "structure"), ref=ref)
                 except Exception as ex:
                     viol = dict(progcase.exc_info(ex), oracle="plan_audit_runs", stage=stage, value=vname)
                     break
@@ -226,7 +231,7 @@ def run(case, mode, cid, tier):
             prog2 = dict(prog, out=idx)
             viol["ops"] = programs.program_ops(prog)
             viol["src"] = programs.program_source(prog2)
-            rec["case"] = {"prog": prog}
+            rec["case"] = {"prog": prog, "shuffle": method}
         else:
             viol["src"] = [tag]
             viol["ops"] = [case["targeted"]]
